@@ -496,7 +496,7 @@ ROWS = [
     R("_Cell.margin_top", "table", SP + ".table.cell(0, 0)", emu(*I32, interior=(0, 1, 91440, 45720), none=True), "emu", none=45720, group="cell", corpus="cell", cls="inset"),
     R("_Cell.margin_bottom", "table", SP + ".table.cell(0, 0)", emu(*I32, interior=(0, 1, 91440, 45720), none=True), "emu", none=45720, group="cell", corpus="cell", cls="inset"),
     # ---- angles ---------------------------------------------------------------------------------------------
-    R("FillFormat.gradient_angle", "gradient", SP + ".fill", angles(), "angle", covers=[("_GradFill", "gradient_angle")], group="grad", cls="angle"),
+    R("FillFormat.gradient_angle", "gradient", SP + ".fill", angles(none=True), "angle", none=None, covers=[("_GradFill", "gradient_angle")], group="grad", cls="angle"),
     # ---- font size / spacing --------------------------------------------------------------------------------
     R("Font.size", "textbox", FONT, centipoint_emu(12700, 50800000), "cpt", none=None, group="font", corpus="font", cls="centipoint"),
     R("_Paragraph.space_before", "textbox", PARA, centipoint_emu(0, 20116800), "cpt", none=None, group="para", corpus="paragraph", cls="centipoint"),
